@@ -46,7 +46,8 @@ Definition unique_keys_block_ok (s : string) : bool :=
 
 (* fingerprints of the pinned helper sources (sha256 of the whitespace-normalised text, 8 bytes) *)
 Definition pinned_fingerprints : list (string * string) :=
-  [("BoolToInt", "d72e7561fb894231");
+  [("SetNetworkProperties", "a9b1672839ac4798");   (* the message handler: gate, unique-keys guards, THEN the write *)
+   ("BoolToInt", "d72e7561fb894231");
    ("IntToBool", "98471c7388184c5b");
    ("FormalizeIdentityRecordKey", "4ded84d0599a750e");
    ("ValidateIdentityRecordKey", "48932523163583ca");
